@@ -100,6 +100,42 @@ def unlock(root):
                     pass
 
 
+def deref_image_is_finite(entries, limit=12):
+    """True when following every directory link terminates (no link leads, directly or through other
+    links, back to a directory on the path being expanded)."""
+    import posixpath
+
+    by = {e["path"]: e for e in entries}
+    children = {}
+    for e in entries:
+        children.setdefault(posixpath.dirname(e["path"]), []).append(e)
+
+    def resolve(p, hops=0):
+        e = by.get(p)
+        while e is not None and e["kind"] == "link" and hops < 40:
+            p = posixpath.normpath(posixpath.join(posixpath.dirname(p), e["target"]))
+            e = by.get(p)
+            hops += 1
+        return e
+
+    def walk(e, stack):
+        if e is None or e["kind"] != "dir":
+            return True
+        if e["path"] in stack or len(stack) > limit:
+            return False
+        for c in children.get(e["path"], []):
+            t = resolve(c["path"]) if c["kind"] == "link" else c
+            if not walk(t, stack + [e["path"]]):
+                return False
+        return True
+
+    for e in children.get("", []):
+        t = resolve(e["path"]) if e["kind"] == "link" else e
+        if not walk(t, []):
+            return False
+    return True
+
+
 def has_dir_link_cycle(entries):
     """True when following links could revisit an ancestor (dereference would not terminate)."""
     for e in entries:
